@@ -34,6 +34,9 @@ class DCommChannelsData:
     en_new: list[bool]
     div_now: list[int]
     div_new: list[int]
+    # device state unknown after a failed request - send full state next time
+    en_resync: bool = False
+    div_resync: bool = False
 
 
 ###############################################################################
@@ -377,16 +380,19 @@ class CommHandler:
                     j += 1
                     k = i
 
-            if j == 1:
+            if j == 1 and not self._channels.en_resync:
                 en_req_t = (k, self._channels.en_new[k])
                 ret = self._channel_enable(en_req_t)
             else:
                 en_req_l = self._channels.en_new
                 ret = self._channel_enable(en_req_l)
             if ret.state is False:  # pragma: no cover
+                # the request may or may not have been applied
+                self._channels.en_resync = True
                 return
 
             # update states
+            self._channels.en_resync = False
             self._channels.en_now = copy.deepcopy(self._channels.en_new)
             assert self.dev
             self.dev.en_channels_update(self._channels.en_now)
@@ -402,16 +408,19 @@ class CommHandler:
                     j += 1
                     k = i
 
-            if j == 1:
+            if j == 1 and not self._channels.div_resync:
                 div_req_t = (k, self._channels.div_new[k])
                 ret = self._channel_div(div_req_t)
             else:
                 div_req_l = self._channels.div_new
                 ret = self._channel_div(div_req_l)
             if ret.state is False:  # pragma: no cover
+                # the request may or may not have been applied
+                self._channels.div_resync = True
                 return
 
             # update states
+            self._channels.div_resync = False
             self._channels.div_now = copy.deepcopy(self._channels.div_new)
             assert self.dev
             self.dev.div_channels_update(self._channels.div_now)
